@@ -3,7 +3,7 @@
    costs) is a function of grammar and input alone - no lookahead or debug
    parameter occurs in them - and the facts of the source the argument needs
    (clamp expression, cache distance threshold) are regenerated from yaep.c. *)
-From YV Require Import Prelude EarleySpec Recognizer Viable Lookahead Translate Dag Generated GeneratedChecks CacheModel.
+From YV Require Import Prelude EarleySpec Recognizer Viable Lookahead FirstFollow Translate Dag Generated GeneratedChecks CacheModel.
 From Coq Require Import String.
 Local Open Scope Z_scope.
 
@@ -84,3 +84,22 @@ Print Assumptions C09_source_filters_and_places.
 Theorem C09_cache_entries_do_not_survive_a_recovery : cache_entries_carry_recovery_number = true.
 Proof. reflexivity. Qed.
 Print Assumptions C09_cache_entries_do_not_survive_a_recovery.
+
+(* the sets the level-1 filter works with (nullable flags, FIRST, FOLLOW), read from the implementation through a hook
+   and checked to be closed under the rules by the extracted [closed_tbl], contain the exact sets; hence the filter built
+   from them keeps every item that lies on a derivation of the input, and by C09_verdict_under_lookahead the verdict and
+   the error token are those of the unfiltered parser.  A fixpoint loop that stops too early leaves sets that are not
+   closed. *)
+Theorem C09_closed_sets_contain_first_and_follow : forall g axiom NL FIt FOt, closed_tbl g axiom NL FIt FOt = true ->
+  (forall al, nullable_form g al -> nl_form NL al = true) /\
+  (forall al a, first_of g al a -> fi_form NL (fun x => nth x FIt []) al a = true) /\
+  (forall x a, follow_of g axiom x a -> memo (Some a) (nth x FOt []) = true) /\
+  (forall x, follow_end g axiom x -> memo None (nth x FOt []) = true).
+Proof. intros g axiom NL FIt FOt H. exact (closed_sets_contain_exact_sets g axiom NL _ _ H). Qed.
+Print Assumptions C09_closed_sets_contain_first_and_follow.
+
+Theorem C09_closed_sets_filter_keeps_useful_items : forall g axiom NL FIt FOt, closed_tbl g axiom NL FIt FOt = true ->
+  forall w p i, useful g axiom w p i ->
+  keep_closed NL (fun x => nth x FIt []) (fun x => nth x FOt []) (next w p) i = true.
+Proof. intros g axiom NL FIt FOt H. exact (closed_filter_keeps_useful_items g axiom NL _ _ H). Qed.
+Print Assumptions C09_closed_sets_filter_keeps_useful_items.
